@@ -47,6 +47,8 @@ pub enum OpKind {
     TryConnect,
     Disconnect,
     Isolate,
+    /// is_connected / find_* / degree on (u, v): must not change anything (and may set hidden lookup state)
+    Lookup,
 }
 #[derive(Clone, Debug, PartialEq, Eq, PartialOrd, Ord, Hash, Serialize, Deserialize)]
 pub enum Ret {
@@ -182,6 +184,16 @@ pub fn d_step(s: &State, op: OpKind, u: usize, v: usize, e: EV, ret: &Ret, t: &S
             }
             fail("disconnect.not-exactly-one-edge-removed", format!("before out={:?} in={:?} after out={:?} in={:?}", s.out[u], s.inc[v], t.out[u], t.inc[v]))
         }
+        OpKind::Lookup => {
+            if s != t {
+                return fail("lookup.changed-state", "");
+            }
+            let has = s.out[u].iter().any(|x| x.0 as usize == v);
+            if *ret != (if has { Ret::Ok } else { Ret::ErrNotFound }) {
+                return fail("lookup.wrong-answer", format!("node {} lists {}: {} but the lookups answered {:?}", u, v, has, ret));
+            }
+            Ok(())
+        }
         OpKind::Isolate => {
             if *ret != Ret::Unit {
                 return fail("isolate.return", format!("ret={:?}", ret));
@@ -286,6 +298,16 @@ pub fn u_step(s: &State, op: OpKind, u: usize, v: usize, e: EV, ret: &Ret, t: &S
             }
             if !same_except(&[u, v]) {
                 return fail("disconnect.unrelated-lists-changed", "");
+            }
+            Ok(())
+        }
+        OpKind::Lookup => {
+            if s != t {
+                return fail("lookup.changed-state", "");
+            }
+            let has = s.out[u].iter().any(|x| x.0 as usize == v);
+            if *ret != (if has { Ret::Ok } else { Ret::ErrNotFound }) {
+                return fail("lookup.wrong-answer", format!("node {} lists {}: {} but the lookups answered {:?}", u, v, has, ret));
             }
             Ok(())
         }
